@@ -68,14 +68,14 @@ structure Inv (s : State) : Prop where
   chan : inSolve s.p = true → s.ctrl = [] ∧ s.reply = []
   queue : ∀ m, m ∈ s.queue → truthful cfg s.cycle m
   putting : ∀ j m, s.ms[j]? = some (.putting m) → truthful cfg s.cycle m ∧ sender m = j
-  wServing : s.p = .waiting → ∀ i v, Msg.ans i v ∈ s.queue → s.ms[i]? = some .serving
+  wServing : s.p = .waiting → ∀ i v, Msg.ans i v ∈ s.queue → s.ms[i]? = some .serving ∨ s.ms[i]? = some .crashed
   wQueued : s.p = .waiting → ∀ i, s.ms[i]? = some .serving → ∃ v, Msg.ans i v ∈ s.queue
   wAnswer : s.p = .waiting → ∀ i, i < cfg.n → ∀ v, cfg.beh s.cycle i = .answer v →
-              ∃ m, s.ms[i]? = some m ∧ alive m = true
+              ∃ m, s.ms[i]? = some m ∧ (alive m = true ∨ (m = .crashed ∧ Msg.ans i v ∈ s.queue))
   wRaise : s.p = .waiting → cfg.eoe = true → ∀ i, i < cfg.n → ∀ e, cfg.beh s.cycle i = .raise e →
               (∃ m, s.ms[i]? = some m ∧ alive m = true) ∨ Msg.exn i e ∈ s.queue
   kLosers : ∀ v w k, s.p = .killLosers v w k →
-              w < cfg.n ∧ cfg.beh s.cycle w = .answer v ∧ s.ms[w]? = some .serving
+              w < cfg.n ∧ cfg.beh s.cycle w = .answer v ∧ (s.ms[w]? = some .serving ∨ s.ms[w]? = some .crashed)
   kAll : ∀ e k, s.p = .killAll e k →
               errOK cfg s.cycle e ∧ ∀ j, j < k → ∀ m, s.ms[j]? = some m → alive m = false
   ret : ∀ v w, s.p = .returned v w → w < cfg.n ∧ cfg.beh s.cycle w = .answer v
@@ -132,7 +132,7 @@ theorem inv_finish (s : State) (hi : Inv cfg s) (i : Nat) (hm : s.ms[i]? = some 
   case wAnswer =>
     intro hp j hj v hb
     by_cases hji : j = i
-    · subst hji; exact ⟨_, get_set_eq hm, by rw [hb]; rfl⟩
+    · subst hji; exact ⟨_, get_set_eq hm, Or.inl (by rw [hb]; rfl)⟩
     · rw [get_set_ne (fun h => hji h.symm)]; exact wAnswer hp j hj v hb
   case wRaise =>
     intro hp he j hj e hb
@@ -176,7 +176,7 @@ theorem inv_flush (s : State) (hi : Inv cfg s) (i : Nat) (m : Msg) (hm : s.ms[i]
       rw [get_set_ne hji]; exact hs
     · simp at h; subst h
       simp [sender] at hsend; subst hsend
-      exact get_set_eq hm
+      exact Or.inl (get_set_eq hm)
   case wQueued =>
     intro hp j h
     rcases get_set_cases hm h with ⟨rfl, h2⟩ | ⟨_, h2⟩
@@ -190,9 +190,11 @@ theorem inv_flush (s : State) (hi : Inv cfg s) (i : Nat) (m : Msg) (hm : s.ms[i]
     by_cases hji : j = i
     · subst hji
       cases m with
-      | ans i' v' => exact ⟨_, get_set_eq hm, rfl⟩
+      | ans i' v' => exact ⟨_, get_set_eq hm, Or.inl rfl⟩
       | exn i' e => simp [sender] at hsend; subst hsend; simp [truthful, hb] at htr
-    · rw [get_set_ne (fun h => hji h.symm)]; exact wAnswer hp j hj v hb
+    · rw [get_set_ne (fun h => hji h.symm)]
+      obtain ⟨m', h1, h2⟩ := wAnswer hp j hj v hb
+      exact ⟨m', h1, h2.imp id (fun h3 => ⟨h3.1, List.mem_append_left _ h3.2⟩)⟩
   case wRaise =>
     intro hp he j hj e hb
     by_cases hji : j = i
@@ -288,7 +290,9 @@ theorem inv_allDead (s : State) (hi : Inv cfg s) (hp : s.p = .waiting) (hq : s.q
     refine ⟨⟨?_, ?_⟩, hd'⟩
     · intro i hi v hb
       obtain ⟨m, h1, h2⟩ := wAnswer hp i hi v hb
-      rw [hd' i m h1] at h2; simp at h2
+      rcases h2 with h2 | ⟨_, h2⟩
+      · rw [hd' i m h1] at h2; simp at h2
+      · rw [hq] at h2; simp at h2
     · intro he i hi e hb
       rcases wRaise hp he i hi e hb with ⟨m, h1, h2⟩ | h
       · rw [hd' i m h1] at h2; simp at h2
@@ -355,7 +359,7 @@ theorem inv_fresh (s : State) : Inv cfg (fresh cfg s) := by
   constructor <;> simp only [fresh] <;> try (first | assumption | grind [inSolve])
   case wAnswer =>
     intro _ i hi v _
-    exact ⟨.solving, by simp [hi], rfl⟩
+    exact ⟨.solving, by simp [hi], Or.inl rfl⟩
   case wRaise =>
     intro _ _ i hi e _
     exact Or.inl ⟨.solving, by simp [hi], rfl⟩
@@ -365,6 +369,48 @@ theorem inv_ask (s : State) (hi : Inv cfg s) (v : Bool) (w q : Nat) (hp : s.p = 
   obtain ⟨len, chan, queue, putting, wServing, wQueued, wAnswer, wRaise, kLosers, kAll, ret, await, raised⟩ := hi
   constructor <;> simp only [] <;> try (first | assumption | grind [inSolve])
 
+theorem inv_serveCrash (s : State) (hi : Inv cfg s) (i : Nat) (hm : s.ms[i]? = some .serving) :
+    Inv cfg { s with ms := s.ms.set i .crashed } := by
+  have hin := idx_lt_n cfg hi hm
+  obtain ⟨len, chan, queue, putting, wServing, wQueued, wAnswer, wRaise, kLosers, kAll, ret, await, raised⟩ := hi
+  constructor <;> simp only [] <;> try (first | assumption | grind [inSolve])
+  case wAnswer =>
+    intro hp j hj v hb
+    by_cases hji : j = i
+    · subst hji
+      obtain ⟨v', hv'⟩ := wQueued hp j hm
+      have := (queue _ hv').2
+      rw [hb] at this; simp at this; subst this
+      exact ⟨_, get_set_eq hm, Or.inr ⟨rfl, hv'⟩⟩
+    · rw [get_set_ne (fun h => hji h.symm)]; exact wAnswer hp j hj v hb
+  case wRaise =>
+    intro hp he j hj e hb
+    by_cases hji : j = i
+    · subst hji
+      obtain ⟨v', hv'⟩ := wQueued hp j hm
+      have := (queue _ hv').2
+      rw [hb] at this; simp at this
+    · rw [get_set_ne (fun h => hji h.symm)]; exact wRaise hp he j hj e hb
+  case kAll =>
+    intro e k hp
+    refine ⟨(kAll e k hp).1, ?_⟩
+    intro j hj m' h
+    rcases get_set_cases hm h with ⟨_, h2⟩ | ⟨_, h2⟩
+    · subst h2; rfl
+    · exact (kAll e k hp).2 j hj m' h2
+  case raised =>
+    intro e hp
+    have := (raised e hp).2 i _ hm; simp [alive] at this
+
+theorem inv_recvEOF (s : State) (hi : Inv cfg s) (v : Bool) (w q : Nat) (hp : s.p = .awaiting v w q) :
+    Inv cfg { s with ctrl := [], p := .returned v w } := by
+  obtain ⟨len, chan, queue, putting, wServing, wQueued, wAnswer, wRaise, kLosers, kAll, ret, await, raised⟩ := hi
+  constructor <;> simp only [] <;> try (first | assumption | grind [inSolve])
+
+theorem inv_close (s : State) :
+    Inv cfg { s with ms := [], queue := [], ctrl := [], reply := [], p := .ready, served := [] } := by
+  constructor <;> simp [inSolve]
+
 theorem inv_istep (s t : State) (hi : Inv cfg s) (h : IStep cfg s t) : Inv cfg t := by
   cases h with
   | finish i hm => exact inv_finish cfg s hi i hm
@@ -372,6 +418,8 @@ theorem inv_istep (s t : State) (hi : Inv cfg s) (h : IStep cfg s t) : Inv cfg t
   | recvExit i cs hm hc => exact inv_recvExit cfg s hi i cs hm hc
   | recvQuery i q cs hm hc => exact inv_recvQuery cfg s hi i q cs hm hc
   | lateRecv i c cs _ hm hc => exact inv_lateRecv cfg s hi i c cs hm hc
+  | serveCrash i _ hm => exact inv_serveCrash cfg s hi i hm
+  | recvEOF v w q hp _ _ => exact inv_recvEOF cfg s hi v w q hp
   | getAns i v q hp hq => exact inv_getAns cfg s hi i v q hp hq
   | getExnSkip i e q hp he hq => exact inv_getExnSkip cfg s hi i e q hp he hq
   | getExnExit i e q hp he hq => exact inv_getExnExit cfg s hi i e q hp he hq
@@ -387,6 +435,8 @@ theorem inv_ustep (s t : State) (hi : Inv cfg s) (h : UStep cfg s t) : Inv cfg t
   | solveStart _ => exact inv_fresh cfg s
   | ask v w q hp => exact inv_ask cfg s hi v w q hp
   | edit _ => exact hi
+  | askNoSolver _ => exact hi
+  | close _ => exact inv_close cfg s
 
 theorem inv_step (s t : State) (hi : Inv cfg s) (h : Step cfg s t) : Inv cfg t := by
   cases h with
